@@ -13,7 +13,7 @@ PROPERTY = "C17"
 LEVEL = "exploration"
 RULE = ("(A) tag histories: every sequence of <=4 (thorough 5) individuals with tags from {-1,0,2,5} and unique values: population(t) "
         "for every t and the default; (B) value histories: every sequence of <=3 individuals over vectors {(0,0),(0,.5),(.5,0)} x costs "
-        "{1,2,3}^2 (n=3 quick: 4 cost pairs) x tags {0,2} x front {1,2}, for criteria (min,max), (max,min), (absent,min): table, "
+        "{1,2,3}^2 (n=3 quick: 4 cost pairs, front 1) x tags {0,2} x front {1,2}, for criteria (min,max), (max,min), (absent,min): table, "
         "listings sorted and unsorted, parameters()/costs(), find_optimum for both goals, pareto_front; (C) indicators: all reference x "
         "computed subsets of size 1..3 of {0,.5,1}^2, a 3-D family, shifts d in {0,.25,1}. Non-trivial = history with >=2 individuals "
         "or point sets that differ; distinct = distinct case tuples.")
@@ -167,6 +167,28 @@ def check_values(history, criteria):
             bad("C17:parameters-costs:pairing", "parameters() %r and costs() %r do not pair up" % (ps, cs))
     except Exception as e:
         bad("C17:parameters-costs:exception:%s" % type(e).__name__, "raised %r" % (e,))
+    # queries are views: asking twice gives the same answer, also after the caller emptied the containers it was given,
+    # and querying does not change the recorded individuals
+    try:
+        snap = [(list(i.vector), list(i.costs), i.population_id) for i in inds]
+        for label, q in (("table", lambda: res.table(transpose=False)), ("population", lambda: res.population()),
+                         ("goal_on_parameter", lambda: res.goal_on_parameter("x0", "f1", sorted=True)),
+                         ("parameters", lambda: res.parameters()), ("costs", lambda: res.costs()),
+                         ("pareto_front", lambda: res.pareto_front())):
+            first = q()
+            frozen = repr(first)
+            if isinstance(first, list):
+                for inner in first:
+                    if isinstance(inner, list) and label in ("goal_on_parameter", "costs", "pareto_front"):
+                        del inner[:]
+                del first[:]
+            again = q()
+            if repr(again) != frozen:
+                bad("C17:query-not-repeatable:%s" % label, "%s returned %s first and %r after the caller emptied the returned containers" % (label, frozen, again))
+        if [(list(i.vector), list(i.costs), i.population_id) for i in inds] != snap:
+            bad("C17:query-modifies-recorded-data", "recorded individuals changed by querying")
+    except Exception as e:
+        bad("C17:repeat:exception:%s" % type(e).__name__, "raised %r" % (e,))
     # optimum
     for gi, gname in enumerate(("f0", "f1")):
         crit = criteria[gi]
@@ -262,7 +284,8 @@ def _shard(shard, col: Collector):
     elif kind == "values":
         _, n, costs_name, first, criteria = shard
         costs = COSTS9 if costs_name == "9" else COSTS4
-        alpha = [(v, c, t, f) for v in VECS for c in costs for t in (0, 2) for f in (1, 2)]
+        fronts = (1, 2) if (n <= 2 or costs_name == "9") else (1,)
+        alpha = [(v, c, t, f) for v in VECS for c in costs for t in (0, 2) for f in fronts]
         for rest in itertools.product(alpha, repeat=n - 1):
             hist = [first] + list(rest)
             col.case()
@@ -319,7 +342,7 @@ def run(tier, seed):
                 shards.append(("values", n, "9", first, criteria))
         cn = "9" if tier == "thorough" else "4"
         costs = COSTS9 if cn == "9" else COSTS4
-        alpha = [(v, c, t, f) for v in VECS for c in costs for t in (0, 2) for f in (1, 2)]
+        alpha = [(v, c, t, f) for v in VECS for c in costs for t in (0, 2) for f in ((1, 2) if cn == "9" else (1,))]
         for first in alpha:
             shards.append(("values", 3, cn, first, criteria))
     shards += [("ind", "2d"), ("ind", "3d")]
